@@ -50,14 +50,37 @@ func verifSchedSetup() (*verifFS, *Server, *connState, *connState, verifFidSet, 
 		_ = w
 		return set
 	}
+	if verifTinySetup {
+		// connection 1 holds the two directories, connection 2 one fid on /d/f
+		set := verifFidSet{dir: 101, file: 102, openFile: 103, openDir: 104, other: 105, otherFile: 106, newBase: 120}
+		fs.walkMode = ModeDirectory
+		verifAssume(verifErrnoOf(cs1.handle(&twalk{fid: 1, newFID: set.dir, Names: []string{"d"}})) == 0)
+		verifAssume(verifErrnoOf(cs1.handle(&twalk{fid: 1, newFID: set.other, Names: []string{"e"}})) == 0)
+		verifAssume(verifErrnoOf(cs2.handle(&twalk{fid: 1, newFID: set.file, Names: []string{"d"}})) == 0)
+		fs.walkMode = ModeRegular
+		verifAssume(verifErrnoOf(cs2.handle(&twalk{fid: set.file, newFID: set.file, Names: []string{"f"}})) == 0)
+		fs.log = nil
+		return fs, s, cs1, cs2, set, set
+	}
 	a := bind(cs1, 100)
-	b := bind(cs1, 200)
+	b := a
+	if !verifLeanSetup {
+		b = bind(cs1, 200)
+	}
 	bind(cs2, 100)
-	b2 := bind(cs2, 200)
-	_ = b2
+	if !verifLeanSetup {
+		bind(cs2, 200)
+	}
 	fs.log = nil
 	return fs, s, cs1, cs2, a, b
 }
+
+// verifTinySetup: the smallest sessions in which a rename on one connection
+// meets the release of the last fid on the renamed entry on another one.
+var verifTinySetup bool
+
+// verifLeanSetup: one fid set per connection (C16 pairs across connections).
+var verifLeanSetup bool
 
 const (
 	opWalkFrom = iota
@@ -474,6 +497,19 @@ func VerifH_C16_Pairs() {
 	opA := sc % verifC16NOps
 	opB := (sc / verifC16NOps) % verifC16NOps
 	rel := sc / (verifC16NOps * verifC16NOps)
+	verifLeanSetup = rel == 0
+	if rel == 2 {
+		// tiny sessions: A is one of the directory operations of connection 1
+		// (0 walk, 3 create, 4 unlink, 5/6 rename, 15 mkdir), B releases or uses
+		// connection 2's only fid on /d/f (2, 7, 8, 9, 12, 14)
+		okA := opA == 0 || opA == 3 || opA == 4 || opA == 5 || opA == 6 || opA == 15
+		okB := opB == 2 || opB == 7 || opB == 8 || opB == 9 || opB == 12 || opB == 14
+		if !okA || !okB {
+			verifReach("skip")
+			return
+		}
+		verifTinySetup = true
+	}
 	fs, _, cs1, cs2, a, b := verifSchedSetup()
 	cs1.t, cs1.r = &verifNopCloser{}, &verifNopCloser{}
 	cs2.t, cs2.r = &verifNopCloser{}, &verifNopCloser{}
